@@ -1548,6 +1548,68 @@ theorem store_only_grows (ops0 ops : List Op) :
     (run St.init ops0).snaps.length ≤ (run (run St.init ops0) ops).snaps.length :=
   (run_snapsExtend ops (inv_reachable ops0)).1
 
+/-- **stored_immutable, no retention limit** (the clause over ARBITRARILY LONG histories: the model has
+no bound on the number or the age of stored snapshots). In every reachable state `FindSnapshotByID`
+finds exactly the ids ever issued, `1 … lastId`, however many builds lie between the build that
+stored an id and the lookup. -/
+theorem every_issued_id_stays_stored (ops : List Op) (id : Nat) :
+    (findSnapshot (run St.init ops) id).isSome = true ↔ 1 ≤ id ∧ id ≤ (run St.init ops).lastId := by
+  have hi := inv_reachable ops
+  generalize run St.init ops = s at hi ⊢
+  constructor
+  · intro h
+    by_cases hr : 1 ≤ id ∧ id ≤ s.lastId
+    · exact hr
+    · have : findSnapshot s id = none :=
+        find_none_of_ids hi.ids id (by rw [hi.last] at hr; omega)
+      rw [this] at h; simp at h
+  · rintro ⟨h1, h2⟩
+    have := find_by_pos hi.ids (id - 1) (by rw [hi.last] at h2; omega)
+    have e : id - 1 + 1 = id := by omega
+    rw [e] at this
+    unfold findSnapshot; rw [this]; rfl
+
+/-- **stored_immutable, the live record of a chain.** Once `GetLatestSnapshotOnChain c` answers with a
+snapshot, it keeps answering after ANY further sequence of operations, with a snapshot that is live
+on `c` and whose id is at least as high (the record of where a snapshot is live is never lost, so
+the just-in-time update always finds the valset the remote chain holds). -/
+theorem live_record_stays (ops0 ops : List Op) (c : Nat) (sn : Snapshot)
+    (h : latestOnChain (run St.init ops0) c = some sn) :
+    ∃ sn', latestOnChain (run (run St.init ops0) ops) c = some sn' ∧ sn.id ≤ sn'.id ∧ c ∈ sn'.chains := by
+  have hmem : sn ∈ (run St.init ops0).snaps := by
+    have := List.mem_of_find?_eq_some h
+    simpa using this
+  have hc : c ∈ sn.chains := by
+    have := List.find?_some h
+    simpa using this
+  obtain ⟨sn2, hf, hid, _, _, _, hpre⟩ := stored_immutable ops0 ops sn hmem
+  have hids := (ids_strictly_increase (ops0 ++ ops)).1
+  rw [run_append] at hids
+  generalize run (run St.init ops0) ops = s' at hf hids ⊢
+  have hmem2 : sn2 ∈ s'.snaps := List.mem_of_find?_eq_some hf
+  have hc2 : c ∈ sn2.chains := hpre.subset hc
+  unfold latestOnChain
+  cases hfind : s'.snaps.reverse.find? (fun sn => sn.chains.contains c) with
+  | none =>
+    rw [List.find?_eq_none] at hfind
+    have := hfind sn2 (by simpa using hmem2)
+    simp [hc2] at this
+  | some sn' =>
+    refine ⟨sn', rfl, ?_, by simpa using List.find?_some hfind⟩
+    obtain ⟨_, as, bs, hl, has⟩ := List.find?_eq_some_iff_append.mp hfind
+    have hs : s'.snaps = bs.reverse ++ sn' :: as.reverse := by
+      have := congrArg List.reverse hl
+      simpa using this
+    rw [hs] at hmem2 hids
+    rw [← hid]
+    rcases List.mem_append.mp hmem2 with hb | hb
+    · rw [List.map_append, List.pairwise_append] at hids
+      exact Nat.le_of_lt (hids.2.2 _ (List.mem_map_of_mem hb) _ (by simp))
+    · rcases List.mem_cons.mp hb with rfl | ha
+      · exact Nat.le_refl _
+      · have := has sn2 (by simpa using ha)
+        simp [hc2] at this
+
 /-! ### Part 3 — the validator set of one chain -/
 
 /-- **power_spec** ("stake fraction scaled to 2^32 and rounded down"): for a positive total the
@@ -2522,6 +2584,14 @@ example :
 example : (run St.init (exOps ++ [.onChain 2 1, .onChain 2 3, .onChain 9 1,
       .setStaking [⟨1, .bonded, false, 2000000⟩], .build 30 [1]])).snaps.map
         (fun sn => (sn.id, sn.chains, sn.vals.length)) = [(1, [], 2), (2, [1, 3], 2), (3, [], 1)] := by decide
+
+/-- long-history clause, concretely: snapshot 2 is recorded as live on chain 1, a third snapshot is
+built; every issued id (1, 2, 3) is found, 0 and 4 are not, and the live record of chain 1 is still 2 -/
+example : (latestOnChain (run St.init (exOps ++ [.onChain 2 1,
+      .setStaking [⟨1, .bonded, false, 2000000⟩], .build 30 [1]])) 1).map (·.id) = some 2 ∧
+    (List.range 5).map (fun i => (findSnapshot (run St.init (exOps ++ [.onChain 2 1,
+      .setStaking [⟨1, .bonded, false, 2000000⟩], .build 30 [1]])) i).isSome) =
+      [false, true, true, true, false] := by decide
 
 /-- `chainsAdded` on that history: the chains added to snapshot 2 after its build -/
 example : chainsAdded 2 [.onChain 2 1, .onChain 2 3, .onChain 9 1,
